@@ -55,18 +55,30 @@ Definition zlen {A} (l : list A) : Z := Z.of_nat (length l).
 Definition nthZ {A} (l : list A) (i : Z) : option A :=
   if i <? 0 then None else nth_error l (Z.to_nat i).
 
-(* ---- round_robin: atomic.AddUint64(&current, 1) % len ---- *)
+(* ---- round_robin: atomic.AddUint64(&current, 1) % len, skipping backends marked unhealthy,
+        giving up after one full turn ---- *)
+Fixpoint rr_scan (fuel : nat) (pool : list backend) (ctr : Z) : option backend * Z :=
+  match fuel with
+  | O => (None, ctr)
+  | S f =>
+      let c' := wrap_u64 (ctr + 1) in
+      match nthZ pool (c' mod zlen pool) with
+      | Some b => if bflag b then (Some b, c') else rr_scan f pool c'
+      | None => (None, c')
+      end
+  end.
 Definition rr_pick (pool : list backend) (ctr : Z) : option backend * Z :=
   match pool with
   | [] => (None, ctr)
-  | _ => let c' := wrap_u64 (ctr + 1) in (nthZ pool (c' mod zlen pool), c')
+  | _ => rr_scan (length pool) pool ctr
   end.
 
-(* ---- least_connections: first strict minimum of ActiveConnections over ALL backends ---- *)
+(* ---- least_connections: first strict minimum of ActiveConnections over the backends that are
+        marked healthy ---- *)
 Fixpoint lc_scan (best : option backend) (minc : Z) (pool : list backend) : option backend :=
   match pool with
   | [] => best
-  | b :: t => if bactive b <? minc then lc_scan (Some b) (bactive b) t else lc_scan best minc t
+  | b :: t => if bflag b && (bactive b <? minc) then lc_scan (Some b) (bactive b) t else lc_scan best minc t
   end.
 Definition lc_pick (pool : list backend) : option backend := lc_scan None 2147483647 pool.
 
